@@ -188,6 +188,21 @@ fn run_item(intrp: &mut Interpreter, code: &MechCode, origin: &str, events: &mut
   match code {
     MechCode::Statement(Statement::VariableDefine(d)) if d.var.kind.is_none() => passthrough(&d.expression, false, &mut bases),
     MechCode::Statement(Statement::TupleDestructure(t)) => passthrough(&t.expression, false, &mut bases),
+    // `T += r` appends the record r to the table T as a new row: on the pinned tree the row shares r's cells
+    MechCode::Statement(Statement::OpAssign(a)) if a.target.subscript.is_none() => {
+      let tname = a.target.name.to_string();
+      let is_table = {
+        let syms = intrp.symbols();
+        let syms = syms.borrow();
+        let dict = syms.dictionary.borrow();
+        syms.symbols.iter().any(|(id, cell)| dict.get(id).map(|x| *x == tname).unwrap_or(false) && {
+          let p = project(&cell.borrow());
+          let p = if p.get("t").and_then(|t| t.as_str()) == Some("mref") { p.get("v").cloned().unwrap_or(J::Null) } else { p };
+          p.get("t").and_then(|t| t.as_str()) == Some("tbl")
+        })
+      };
+      if is_table { passthrough(&a.expression, true, &mut bases); }
+    }
     _ => {}
   }
   bases.sort(); bases.dedup();
